@@ -167,7 +167,7 @@ def run(ctx):
                 "distinct = hash of (ops, implementation outputs); non-trivial = at least one op")
     ctx.assumptions = [
         "hostnames and namespaces are ASCII (Go compares bytes, the model compares characters)",
-        "hostnames in VirtualService / DestinationRule are fully qualified (ResolveShortnameToFQDN is the identity on names containing a dot)",
+        "short names in VirtualService / DestinationRule are resolved as <name>.<namespace>.svc.cluster.local (resolveShort; domain cluster.local only)",
         "services have pairwise distinct (creationTime, name, namespace) sort keys (SortServicesByCreationTime is then a total order; multi-host ServiceEntry ties belong to C17)",
         "at most one Kubernetes service per hostname in generated meshes (the oracle's Kubernetes tie-break clause names a single expected namespace); pickBestVisibleNamespace itself is order independent for all inputs (pickBest_order_independent, /repo d30d8f4)",
         "ExternalName services have pairwise distinct hostnames (two alias services on one hostname: 'behavior is undefined' in resolveServiceAliases)",
@@ -176,7 +176,11 @@ def run(ctx):
         "(exported_complete_validated, validator tied by the vval stream); Kubernetes Service annotations are not validated (witness exported_mixed_none_witness)",
         "every generated connection limit is written in exactly one place of one DestinationRule (the oracle identifies the owner of a policy value by it)",
     ]
-    ctx.trusted.append("pilot/pkg/model/zz_verif_c07.go (verif-tagged accessors: servicesExportedToNamespace, serviceExportTo, SidecarScope.destinationRules, ConsolidatedDestRule.from)")
+    ctx.trusted.append("pilot/pkg/model/zz_verif_c07.go (verif-tagged accessors: servicesExportedToNamespace, serviceExportTo, convertToSidecarScope, "
+                       "SidecarScope.destinationRules, PushContext.destinationRule, ConsolidatedDestRule.exportTo, ConsolidatedDestRule.from)")
+    ctx.trusted.append("the differential runs the xDS generators with model.DisabledCache and the state-of-the-world CDS; the cached generators (real XdsCache, proxies of all "
+                       "namespaces served twice in sequence) and delta CDS (BuildDeltaClusters on the same connection after every update) are covered by the oracle only: "
+                       "cached = uncached output; a delta never leaves the proxy with a cluster of a service outside its scope")
     ctx.trusted.append("harness ServiceEntry environment of the sev stream (memory config store, fake Kubernetes client, multicluster controller) and the carrier objects of the vval stream")
     ctx.trusted.append("harness service registry / config store construction (model.NewEnvironment + FakeStore + VirtualServiceController + PushContext.InitContext), "
                        "closed-form index model (public / exportedToNamespace / HostnameAndNamespace as filters of the creation-ordered list)")
@@ -258,7 +262,10 @@ MANIFEST = {
                    "cluster filter), EDS answers incl. subset clusters, LDS listener names, RDS virtual host names, incremental pushes); "
                    "pilot/pkg/model/zz_verif_c07.go; the harness environment construction. Not modelled: initServiceRegistry loop structure (closed-form index model), "
                    "LDS filter chains and RDS route actions / domains (observed by the oracle only), match fields of delegation other than sourceNamespace, "
-                   "EnvoyFilter / extension-provider services of the gateway filter. "
+                   "EnvoyFilter / extension-provider services of the gateway filter; of a DestinationRule's trafficPolicy only connection pool, load balancer, port-level "
+                   "settings and subsets are generated and modelled (tls, outlierDetection, tunnel, proxyProtocol, retryBudget are NOT: a provenance defect confined to those fields "
+                   "is not seen); delta CDS and cached xDS are judged by the oracle only (no model), delta/full differences inside the scope are counted, not judged (O10); "
+                   "waypoint CDS is not built. "
                    "List-level fast-path parity is false (witnesses fastpath_list_parity_fails_witness, fastpath_duplicate_key_witness); legacy DestinationRule merge "
                    "(flag off) violates export soundness (dr_export_legacy_merge_witness, known finding)."),
     "technique": "Lean 4 theorems over an exact model of visibility / sidecar scoping + differential correspondence with the real PushContext, SidecarScope, validators and xDS generators + independent property oracle",
